@@ -23,11 +23,13 @@
 //
 // Placement-stage sequences (C01 / C02: legalize and placeDetailed called on an object with a history):
 //   circseq gen p SEED COUNT
+//   circseq gen r SEED COUNT     (C11: legal placements of row-high designs, edits that keep the placement legal, see genr below)
 // case line:
 //   "SP nr (minX maxX minY maxY orient)* nc (x y w h orient pol fixed obstruction)* nn (np (cell xo yo)*)* ns (op a b c d e f q)*"
 //   (no extra obstacles; cells carry their row polarity 0..4 = ANY SAME OPPOSITE NW SE); the ops above plus
 //       16 legalize(params): a = effort, b = 1: custom ordering parameters orderingWidth = c/10, orderingY = d/10, orderingHeight = e/10
 //       17 placeDetailed(params): a = effort, b > 0: reorderingMaxNbCells = b, c > 0: reorderingNbRows = c
+//       18 setSolution moving two cells in ONE call: cell a gets x=b y=c, cell d gets x=e y=f (a cell index < 0: none), orientations kept
 //   A step 16/17 is run on the object with its history AND on a circuit built from scratch through the public setters from the
 //   public state (getters; nets as the harness set them) of the object right before the call. Record (7 fields):
 //   "step ~ L ~ op a b c d e ~ <rows> <cells> (LG circuit tokens of the state before the call) ~ <nets> ~ outcome of the object ~ outcome
@@ -113,6 +115,10 @@ static void apply(Obj &o, const Op &p) {
   case 12: if (nc > 0) { Net n; n.c = {(int)a[0], (int)a[3]}; n.xo = {(int)a[1], (int)a[4]}; n.yo = {(int)a[2], (int)a[5]}; c.addNet(n.c, n.xo, n.yo); o.nets.push_back(n); } break;
   case 13: if ((long long)o.nets.size() > a[0] && a[0] >= 0) o.nets.resize(a[0]); setNetsFromShadow(o); break;
   case 15: { Obj t = o; o = t; break; }
+  case 18: { auto s = c.solution();   // ONE setSolution call that moves two cells (e.g. a fixed macro elsewhere and a cell onto the vacated area)
+      if (a[0] >= 0 && a[0] < nc) s[a[0]] = CellPlacement((int)a[1], (int)a[2], s[a[0]].orientation);
+      if (a[3] >= 0 && a[3] < nc) s[a[3]] = CellPlacement((int)a[4], (int)a[5], s[a[3]].orientation);
+      c.setSolution(s); break; }
   default: break;
   }
 }
@@ -317,9 +323,243 @@ static void genp(unsigned long long seed, long long count) {
   }
 }
 
+// ---- SP cases for C11 (gen r): a LEGAL placement of a row-high design, kept legal by the public edits between the legalize calls ----
+// The generator keeps a SHADOW of the public state (rows, cells) and its own notion of legality (movable cell inside one free stretch of a
+// row piece of its y whose orientation its polarity admits, movable cells pairwise disjoint): as long as the shadow is legal a correct
+// legalize leaves the positions alone, so the shadow stays right across legalize steps.  Every proposed edit is applied to a copy of the
+// shadow and kept only when that copy is legal.  Edits: a fixed obstruction moved elsewhere (far away or onto free space) and a movable
+// cell put onto the area it has vacated (ONE setSolution, op 18; two setSolution calls; setCellX + setCellY + setSolution), a cell moved
+// into a free stretch, two cells of one width swapped, a movable cell turned fixed (and back), obstruction flags toggled, rows extended /
+// shrunk / added / dropped, widths shrunk, orientations, nets, copy assignment.  25 % of the cases start from a perturbed (illegal) placement
+// and after placeDetailed the positions are not known any more: then only edits that keep ANY legal placement legal are made (fixed cell
+// moved far away, obstruction flag cleared, row extended, cell turned fixed, width shrunk).  2 % wild edits.  The check (checks/c11.py)
+// never relies on the shadow: it evaluates the proved checker on the public state the harness dumps before every legalize step.
+struct Shadow {
+  TCircuit t; long long sc = 1, rh = 1;
+  static bool turnedO(long long o) { return o == 2 || o == 3 || o == 6 || o == 7; }
+  long long pw(int i) const { auto &c = t.cells[i]; return turnedO(c[4]) ? c[3] : c[2]; }
+  long long ph(int i) const { auto &c = t.cells[i]; return turnedO(c[4]) ? c[2] : c[3]; }
+  bool admits(int i, int r) const { long long p = t.cells[i][5], o = t.rows[r][4]; return p == 3 ? (o == 0 || o == 4) : p == 4 ? (o == 1 || o == 5) : true; }
+  // free stretches [lo, hi) of row piece r: the piece minus the fixed obstructions (withCells: and minus the movable cells standing in it, cell `skip` ignored)
+  std::vector<std::array<long long, 2>> gaps(int r, bool withCells, int skip = -1) const {
+    auto &R = t.rows[r]; std::vector<std::array<long long, 2>> blk, out;
+    for (int i = 0; i < (int)t.cells.size(); ++i) {
+      if (i == skip) continue;
+      auto &c = t.cells[i]; long long w = pw(i), h = ph(i);
+      if (c[6] ? (!c[7] || w <= 0 || h <= 0) : !withCells) continue;
+      if (c[1] >= R[3] || c[1] + h <= R[2]) continue;
+      blk.push_back({c[0], c[0] + w});
+    }
+    std::sort(blk.begin(), blk.end());
+    long long x = R[0];
+    for (auto &b : blk) { if (b[1] <= x) continue; if (b[0] >= R[1]) break; if (b[0] > x) out.push_back({x, b[0]}); x = b[1]; }
+    if (x < R[1]) out.push_back({x, R[1]});
+    return out;
+  }
+  bool rowsOk() const {
+    for (size_t i = 0; i < t.rows.size(); ++i) {
+      auto &a = t.rows[i]; if (a[0] > a[1] || a[3] - a[2] != rh) return false;
+      for (size_t j = i + 1; j < t.rows.size(); ++j) { auto &b = t.rows[j]; if (!(a[1] <= b[0] || b[1] <= a[0] || a[3] <= b[2] || b[3] <= a[2])) return false; }
+    }
+    return !t.rows.empty();
+  }
+  bool legal() const {
+    if (!rowsOk()) return false;
+    int n = (int)t.cells.size();
+    for (int i = 0; i < n; ++i) {
+      auto &c = t.cells[i]; if (c[6]) continue;
+      if (pw(i) <= 0 || ph(i) != rh) return false;
+      bool ok = false;
+      for (int r = 0; r < (int)t.rows.size() && !ok; ++r) {
+        if (t.rows[r][2] != c[1] || !admits(i, r)) continue;
+        for (auto &g : gaps(r, false)) if (g[0] <= c[0] && c[0] + pw(i) <= g[1]) ok = true;
+      }
+      if (!ok) return false;
+      for (int j = i + 1; j < n; ++j) { auto &d = t.cells[j]; if (!d[6] && d[1] == c[1] && c[0] < d[0] + pw(j) && d[0] < c[0] + pw(i)) return false; }
+    }
+    return true;
+  }
+};
+
+static Shadow genLegal(SplitMix &g) {
+  Shadow s; TCircuit &t = s.t;
+  long long sc = g.coin(70) ? 1 : (1LL << g.uni(1, 13)); s.sc = sc;
+  long long rh = g.uni(1, 4) * (g.coin(50) ? 2 : 1) * sc; s.rh = rh;
+  int nrows = (int)g.uni(1, 4), pattern = (int)g.uni(0, 2);
+  long long x0 = g.uni(-20, 20) * sc, y0 = g.uni(-20, 20) * sc, W = g.uni(6, 24) * sc, y = y0;
+  for (int i = 0; i < nrows; ++i) {
+    int opts[4] = {0, 1, 4, 5}; int ro = pattern == 0 ? ((i % 2 == 0) ? 0 : 5) : pattern == 1 ? 0 : opts[g.uni(0, 3)];
+    if (g.coin(30) && W >= 8 * sc) {
+      long long m = g.uni(2, W / sc - 4) * sc, gap = g.uni(0, 2) * sc;
+      t.rows.push_back({x0, x0 + m, y, y + rh, ro});
+      if (x0 + m + gap < x0 + W) t.rows.push_back({x0 + m + gap, x0 + W, y, y + rh, ro});
+    } else t.rows.push_back({x0, x0 + W, y, y + rh, ro});
+    y += rh; if (g.coin(15)) y += rh * g.uni(1, 2);
+  }
+  for (size_t i = t.rows.size(); i > 1; --i) std::swap(t.rows[i - 1], t.rows[g.uni(0, i - 1)]);
+  // fixed obstructions sitting inside the rows (row-high or two rows high), sometimes a fixed cell of any size anywhere
+  int nf = g.coin(80) ? (int)g.uni(1, 2) : 0;
+  for (int f = 0; f < nf; ++f) {
+    auto &R = t.rows[g.uni(0, t.rows.size() - 1)]; long long wd = (R[1] - R[0]) / sc; if (wd < 1) continue;
+    t.cells.push_back({R[0] + g.uni(0, wd - 1) * sc, R[2], g.uni(1, 4) * sc, rh * g.uni(1, 2), 0, 0, 1, (long long)g.coin(85)});
+  }
+  if (g.coin(20)) t.cells.push_back({x0 + g.uni(-5, W / sc + 5) * sc, y0 + g.uni(-2, 6) * rh, g.uni(0, 6) * sc, g.uni(0, 3) * rh / (g.coin(50) ? 1 : 2), g.uni(0, 7), 0, 1, (long long)g.coin(80)});
+  // movable row-high cells standing in the free stretches, with gaps
+  int cap = (int)g.uni(1, 8), nm = 0; int gapPct = (int)g.uni(20, 60);
+  std::vector<int> ord; for (int r = 0; r < (int)t.rows.size(); ++r) ord.push_back(r);
+  for (size_t i = ord.size(); i > 1; --i) std::swap(ord[i - 1], ord[g.uni(0, i - 1)]);
+  for (int r : ord) {
+    auto R = t.rows[r]; auto gs = s.gaps(r, true);
+    for (auto &gp : gs) {
+      long long x = gp[0];
+      while (x < gp[1] && nm < cap) {
+        long long w = std::min(gp[1] - x, g.uni(1, 4) * sc);
+        if (g.coin(gapPct)) { x += w; continue; }
+        int pol = 0, os[4] = {0, 1, 4, 5};
+        if (g.coin(35)) { pol = (int)g.uni(1, 3); if (pol == 3 && (R[4] == 1 || R[4] == 5)) pol = 4; }
+        std::array<long long, 8> c{};
+        if (pol == 0 && g.coin(12)) { int tu[4] = {2, 3, 6, 7}; c = {x, R[2], rh, w, tu[g.uni(0, 3)], 0, 0, (long long)g.coin(80)}; }
+        else c = {x, R[2], w, rh, os[g.uni(0, 3)], pol, 0, (long long)g.coin(80)};
+        t.cells.push_back(c); ++nm; x += w;
+      }
+    }
+  }
+  for (size_t i = t.cells.size(); i > 1; --i) std::swap(t.cells[i - 1], t.cells[g.uni(0, i - 1)]);
+  return s;
+}
+
+static void genr(unsigned long long seed, long long count) {
+  SplitMix g(seed ^ 0xc11u);
+  for (long long it = 0; it < count; ++it) {
+    Shadow s = genLegal(g); TCircuit &t = s.t; long long sc = s.sc, rh = s.rh;
+    int nc = (int)t.cells.size(); if (nc == 0) { t.cells.push_back({0, 0, sc, rh, 0, 0, 0, 1}); nc = 1; }
+    if (g.coin(25)) {   // perturbed start: the first legalize has work to do
+      int k = (int)g.uni(1, 3);
+      for (int j = 0; j < k; ++j) { auto &c = t.cells[g.uni(0, nc - 1)]; if (c[6]) continue; c[0] += g.uni(-3, 3) * sc + (g.coin(30) ? g.uni(-1, 1) : 0); c[1] += g.coin(50) ? g.uni(-1, 1) * rh : g.uni(-2, 2); }
+    }
+    long long bx0 = t.rows[0][0], bx1 = t.rows[0][1], by0 = t.rows[0][2], by1 = t.rows[0][3];
+    for (auto &r : t.rows) { bx0 = std::min(bx0, r[0]); bx1 = std::max(bx1, r[1]); by0 = std::min(by0, r[2]); by1 = std::max(by1, r[3]); }
+    printf("SP %s", showRowsCells(t).c_str());
+    int nn = (int)g.uni(0, 3); printf(" %d", nn);
+    for (int n = 0; n < nn; ++n) { int np = (int)g.uni(2, 4); printf(" %d", np); for (int j = 0; j < np; ++j) { int cc = (int)g.uni(0, nc - 1); printf(" %d %lld %lld", cc, g.uni(0, std::max(1LL, t.cells[cc][2] / sc)) * sc, g.uni(0, std::max(1LL, t.cells[cc][3] / sc)) * sc); } }
+    std::vector<std::array<long long, 7>> steps;   // op a0..a5
+    auto emit = [&](long long op, long long a0 = 0, long long a1 = 0, long long a2 = 0, long long a3 = 0, long long a4 = 0, long long a5 = 0) { steps.push_back({op, a0, a1, a2, a3, a4, a5}); };
+    std::vector<int> mov, fix;
+    auto classify = [&]() { mov.clear(); fix.clear(); for (int i = 0; i < nc; ++i) (t.cells[i][6] ? fix : mov).push_back(i); };
+    auto pick = [&](const std::vector<int> &v) { return v[g.uni(0, v.size() - 1)]; };
+    auto farAway = [&](int f, long long &x, long long &y) {   // a place that touches no row
+      long long w = std::max(1LL, s.pw(f)), h = std::max(1LL, s.ph(f));
+      switch (g.uni(0, 3)) { case 0: x = bx1 + g.uni(0, 5) * sc; y = by0 + g.uni(-1, 3) * rh; break; case 1: x = bx0 - w - g.uni(0, 5) * sc; y = by0 + g.uni(-1, 3) * rh; break;
+        case 2: x = bx0 + g.uni(-2, 8) * sc; y = by1 + g.uni(0, 2) * rh; break; default: x = bx0 + g.uni(-2, 8) * sc; y = by0 - h - g.uni(0, 2) * rh; break; }
+    };
+    auto inRows = [&](long long &x, long long &y) { auto &Q = t.rows[g.uni(0, t.rows.size() - 1)]; x = Q[0] + g.uni(-1, std::max(0LL, (Q[1] - Q[0]) / sc)) * sc; y = Q[2] - (g.coin(15) ? rh : 0); };
+    auto spot = [&](const std::array<long long, 2> &gp, long long w, long long lo, long long hi, long long &x) {   // x in [max(gp.lo, lo), min(gp.hi - w, hi)]
+      long long a = std::max(gp[0], lo), b = std::min(gp[1] - w, hi); if (a > b) return false;
+      x = g.coin(40) ? (g.coin(50) ? a : b) : g.uni(a, b); return true; };
+    int ns = (int)g.uni(4, 10); bool known = true, lg = s.legal(), pending = false;
+    int os4[4] = {0, 1, 4, 5};
+    while ((int)steps.size() < ns) {
+      int left = ns - (int)steps.size();
+      int kind = 2;   // 0 legalize 1 placeDetailed 2 edit
+      if (left == 1 || (steps.empty() && g.coin(65)) || (pending && g.coin(55))) kind = 0;
+      else { int r = (int)g.uni(0, 99); kind = r < (pending ? 20 : 6) ? 0 : r < (pending ? 24 : 12) ? 1 : 2; }   // seldom two stage calls in a row
+      if (kind == 0) { long long cu = g.coin(40); emit(16, g.uni(1, 9), cu, cu ? g.uni(0, 10) : 0, cu ? g.uni(-2, 2) : 0, cu ? g.uni(-20, 20) : 0); if (!lg) known = false; lg = true; pending = false; continue; }
+      if (kind == 1) { emit(17, g.uni(1, 3), g.coin(50) ? g.uni(2, 4) : 0, g.coin(30) ? g.uni(1, 3) : 0); known = false; lg = true; pending = false; continue; }
+      classify(); pending = true;
+      if (g.coin(2)) {   // wild edit
+        int c = (int)g.uni(0, nc - 1); long long x = bx0 + g.uni(-2, (bx1 - bx0) / sc + 1) * sc, y = by0 + g.uni(-1, (by1 - by0) / rh) * rh + (g.coin(20) ? g.uni(0, rh - 1) : 0);
+        emit(8, c, x, y, t.cells[c][4]); t.cells[c][0] = x; t.cells[c][1] = y; lg = lg && s.legal(); continue;
+      }
+      if (!(known && lg)) {   // positions unknown: edits that keep every legal placement legal
+        int r = (int)g.uni(0, 99);
+        if (r < 35 && !fix.empty()) { int f = pick(fix); long long x, y; farAway(f, x, y); if (g.coin(60)) emit(8, f, x, y, t.cells[f][4]); else { emit(1, f, x); y = t.cells[f][1]; } t.cells[f][0] = x; t.cells[f][1] = y; }
+        else if (r < 45 && !fix.empty()) { int f = pick(fix); emit(7, f, 0); t.cells[f][7] = 0; }
+        else if (r < 60) { int q = (int)g.uni(0, t.rows.size() - 1); Shadow s2 = s; auto &Q = s2.t.rows[q]; if (g.coin(50)) Q[0] -= g.uni(1, 3) * sc; else Q[1] += g.uni(1, 3) * sc;
+          if (s2.rowsOk()) { emit(9, q, Q[0], Q[1], Q[4]); s = s2; } else emit(14); }
+        else if (r < 70 && mov.size() > 1) { int m = pick(mov); emit(6, m, 1); t.cells[m][6] = 1; }
+        else if (r < 80 && !mov.empty()) { int m = pick(mov); int wi = Shadow::turnedO(t.cells[m][4]) ? 3 : 2; long long w = t.cells[m][wi]; if (w > sc) { w = g.uni(1, w / sc) * sc; emit(3 + (wi == 3), m, w); t.cells[m][wi] = w; } else emit(14); }
+        else if (r < 88) emit(12, g.uni(0, nc - 1), 0, 0, g.uni(0, nc - 1), sc, 0);
+        else emit(g.coin(50) ? 14 : 15);
+        continue;
+      }
+      // positions known and legal: propose, keep what stays legal
+      bool done = false;
+      for (int tries = 0; tries < 10 && !done; ++tries) {
+        Shadow s2 = s; auto &u = s2.t; int r = (int)g.uni(0, 99);
+        std::vector<int> obsIn;   // fixed obstructions crossing a row piece
+        for (int f : fix) { if (!t.cells[f][7] || s.pw(f) <= 0 || s.ph(f) <= 0) continue; for (auto &R : t.rows) if (t.cells[f][1] < R[3] && t.cells[f][1] + s.ph(f) > R[2] && t.cells[f][0] < R[1] && t.cells[f][0] + s.pw(f) > R[0]) { obsIn.push_back(f); break; } }
+        if (r < 45) {   // a fixed obstruction leaves, a cell takes (part of) its place
+          if (obsIn.empty() || mov.empty()) continue;
+          int f = pick(obsIn), m = pick(mov); long long fx = t.cells[f][0], fy = t.cells[f][1], fw = s.pw(f), fh = s.ph(f), nx, ny;
+          std::vector<int> rs; for (int q = 0; q < (int)t.rows.size(); ++q) { auto &R = t.rows[q]; if (fy < R[3] && fy + fh > R[2] && fx < R[1] && fx + fw > R[0] && s.admits(m, q)) rs.push_back(q); }
+          if (rs.empty()) continue;
+          int q = pick(rs);
+          if (g.coin(45)) farAway(f, nx, ny); else inRows(nx, ny);
+          u.cells[f][0] = nx; u.cells[f][1] = ny;
+          long long x = 0; bool ok = false;
+          for (auto &gp : s2.gaps(q, true, m)) if (!ok && gp[1] > fx && gp[0] < fx + fw) ok = spot(gp, s.pw(m), fx - s.pw(m) + 1, fx + fw - 1, x);
+          if (!ok) continue;
+          u.cells[m][0] = x; u.cells[m][1] = t.rows[q][2];
+          if (!s2.legal()) continue;
+          int v = (int)g.uni(0, 9);
+          if (v < 5 || left < 4) emit(18, f, nx, ny, m, x, t.rows[q][2]);
+          else if (v < 8) { emit(8, f, nx, ny, t.cells[f][4]); long long o = t.cells[m][4]; if (t.cells[m][5] != 0) { o = os4[g.uni(0, 3)]; u.cells[m][4] = o; } emit(8, m, x, t.rows[q][2], o); }
+          else { emit(1, f, nx); emit(2, f, ny); long long o = t.cells[m][4]; emit(8, m, x, t.rows[q][2], o); }
+          s = s2; done = true;
+        } else if (r < 60) {   // a cell moves into a free stretch
+          if (mov.empty()) continue;
+          int m = pick(mov), q = (int)g.uni(0, t.rows.size() - 1); if (!s.admits(m, q)) continue;
+          auto gs = s.gaps(q, true, m); if (gs.empty()) continue; long long x;
+          if (!spot(gs[g.uni(0, gs.size() - 1)], s.pw(m), -(1LL << 40), 1LL << 40, x)) continue;
+          u.cells[m][0] = x; u.cells[m][1] = t.rows[q][2]; if (!s2.legal()) continue;
+          if (t.rows[q][2] == t.cells[m][1] && g.coin(50)) emit(1, m, x); else emit(8, m, x, t.rows[q][2], t.cells[m][4]);
+          s = s2; done = true;
+        } else if (r < 67) {   // two cells of one width swap
+          if (mov.size() < 2) continue; int a = pick(mov), b = pick(mov); if (a == b || s.pw(a) != s.pw(b)) continue;
+          std::swap(u.cells[a][0], u.cells[b][0]); std::swap(u.cells[a][1], u.cells[b][1]); if (!s2.legal()) continue;
+          emit(18, a, u.cells[a][0], u.cells[a][1], b, u.cells[b][0], u.cells[b][1]); s = s2; done = true;
+        } else if (r < 77) {   // a fixed cell moves (onto free space, or away)
+          if (fix.empty()) continue; int f = pick(fix); long long nx, ny; if (g.coin(70)) inRows(nx, ny); else farAway(f, nx, ny);
+          u.cells[f][0] = nx; u.cells[f][1] = ny; if (!s2.legal()) continue;
+          if (g.coin(50)) emit(8, f, nx, ny, t.cells[f][4]); else if (ny == t.cells[f][1]) emit(1, f, nx); else emit(18, f, nx, ny, -1, 0, 0);
+          s = s2; done = true;
+        } else if (r < 84) {   // fixed <-> movable
+          int c = (int)g.uni(0, nc - 1); u.cells[c][6] = !u.cells[c][6]; if (!s2.legal()) continue;
+          emit(6, c, u.cells[c][6]); s = s2; done = true;
+        } else if (r < 88) {   // obstruction flag of a fixed cell
+          if (fix.empty()) continue; int f = pick(fix); u.cells[f][7] = !u.cells[f][7]; if (!s2.legal()) continue;
+          emit(7, f, g.coin(50) ? 2 : u.cells[f][7]); s = s2; done = true;
+        } else if (r < 95) {   // rows: a piece extended / shrunk / re-oriented, a row added on top, the last one dropped
+          int v = (int)g.uni(0, 9);
+          if (v < 7) { int q = (int)g.uni(0, t.rows.size() - 1); auto &Q = u.rows[q]; Q[0] += g.uni(-2, 2) * sc; Q[1] += g.uni(-2, 2) * sc; if (g.coin(20)) Q[4] = os4[g.uni(0, 3)];
+            if (!s2.legal()) continue; emit(9, q, Q[0], Q[1], Q[4]); }
+          else if (v < 9) { auto B = t.rows.back(); long long a = bx0 + g.uni(0, 2) * sc, b = bx1 - g.uni(0, 2) * sc; if (a > b) continue; u.rows.push_back({a, b, B[3], B[3] + rh, g.coin(50) ? 0 : 5});
+            if (!s2.legal()) continue; emit(10, 1, a, b, u.rows.back()[4]); }
+          else { if (t.rows.size() < 2) continue; u.rows.pop_back(); if (!s2.legal()) continue; emit(10, 0); }
+          s = s2; done = true;
+        } else {   // width shrunk, orientation of a cell without polarity, a net, copy assignment
+          int v = (int)g.uni(0, 3);
+          if (v == 0 && !mov.empty()) { int m = pick(mov); int wi = Shadow::turnedO(t.cells[m][4]) ? 3 : 2; long long w = t.cells[m][wi]; if (w <= sc) continue; w = g.uni(1, w / sc) * sc; u.cells[m][wi] = w; if (!s2.legal()) continue; emit(3 + (wi == 3), m, w); }
+          else if (v == 1 && !mov.empty()) { int m = pick(mov); if (t.cells[m][5] != 0 || Shadow::turnedO(t.cells[m][4])) continue; u.cells[m][4] = os4[g.uni(0, 3)]; emit(5, m, u.cells[m][4]); }
+          else if (v == 2) emit(12, g.uni(0, nc - 1), 0, 0, g.uni(0, nc - 1), sc, 0);
+          else emit(15);
+          s = s2; done = true;
+        }
+      }
+      if (!done) emit(g.coin(50) ? 14 : 15);
+    }
+    // the last step is always a legalize call
+    if (steps.back()[0] != 16) { long long cu = g.coin(40); steps.back() = {16, g.uni(1, 9), cu, cu ? g.uni(0, 10) : 0, cu ? g.uni(-2, 2) : 0, cu ? g.uni(-20, 20) : 0, 0}; }
+    printf(" %d", (int)steps.size());
+    for (auto &st : steps) printf(" %lld %lld %lld %lld %lld %lld %lld %lld", st[0], st[1], st[2], st[3], st[4], st[5], st[6], (long long)((g.coin(30) ? 1 : 0) | (g.coin(25) ? 2 : 0)));
+    printf("\n");
+  }
+}
+
 int main(int argc, char **argv) {
   std::string mode = argc > 1 ? argv[1] : "run";
   if (mode == "gen" && argc > 4 && std::string(argv[2]) == "p") { genp(strtoull(argv[3], nullptr, 10), atoll(argv[4])); return 0; }
+  if (mode == "gen" && argc > 4 && std::string(argv[2]) == "r") { genr(strtoull(argv[3], nullptr, 10), atoll(argv[4])); return 0; }
   if (mode == "gen") { gen(strtoull(argv[2], nullptr, 10), atoll(argv[3])); return 0; }
   vh_install(); vh_silence();
   std::string line;
